@@ -234,6 +234,10 @@ func Pin(r *fw.Rand, pp PinParams) *api.Pin {
 		if r.Bool() {
 			p.ExpireAt = p.ExpireAt.Add(time.Duration(r.Intn(999999999)))
 		}
+		// "never" as people write it: instants beyond what a nanosecond count since 1970 can hold
+		if r.Chance(1, 8) {
+			p.ExpireAt = []time.Time{time.Date(9999, 12, 31, 23, 59, 59, 0, time.UTC), time.Date(2300, 1, 1, 0, 0, 0, 0, time.UTC), time.Date(2262, 4, 12, 0, 0, 0, 0, time.UTC)}[r.Intn(3)]
+		}
 	}
 	if r.Chance(1, 2) {
 		nm := r.Intn(4)
